@@ -1,7 +1,7 @@
 (* Properties/C25.v — lifecycle rules never act early or on the wrong data.
    Statements about the model of the reconciler (Model/Lifecycle.v); [s3_round_up]/[s3_days_due] is the
    S3 due rule written independently of the code's [next_midnight]. *)
-From Verif Require Import Bytes Codec Listing Lifecycle LifecycleProofs.
+From Verif Require Import Bytes Codec Listing ListingProofs Lifecycle LifecycleProofs LifecycleSweep LifecycleSweepProofs.
 Open Scope Z_scope.
 
 (* the S3 rounding used as yardstick really is "rounded UP to midnight UTC": the least multiple of a
@@ -175,4 +175,162 @@ Example C25_ex_sweep :
   reconcile [r] now [o B"a1" 5; o B"a2" 1; o B"b" 9] [v B"3" true 1; v B"2" false 4; v B"1" false 6; v B"0" false 8]
             [{| u_key := B"a"; u_id := B"u"; u_init := now - 3 * day |}]
   = [ADelete B"a1" B"e" true; ADeleteVersion B"a" B"0"; ATransition B"a2" B"GLACIER" B"e" true; AAbort B"a" B"u"].
+Proof. vm_compute. reflexivity. Qed.
+
+(* ============================================================================================ *)
+(* Part 2 (Model/LifecycleSweep.v): the sweeps as the code runs them — paged listings, per-key decisions
+   on the collected listing, guarded actions with a client acting between listing and action, noncurrent
+   transitions.  The decision functions are those of Part 1, so Part 1's theorems apply to every decision. *)
+
+(* (1) paging.  Whatever the page size of the storage, the three version sweeps see the whole listing *)
+Theorem C25_versions_collected_whole : forall pg vs,
+  NoDup (map (fun v => (v_key (sv_ver v), v_id (sv_ver v))) vs) ->
+  collect_versions (eff_cap pg) vs = vs.
+Proof. intros pg vs H. apply collect_versions_all; [apply eff_cap_pos | exact H]. Qed.
+Print Assumptions C25_versions_collected_whole.
+
+(* ... hence ExpiredObjectDeleteMarker, NoncurrentVersionExpiration (NewerNoncurrentVersions) and the
+   noncurrent transitions decide every key on its WHOLE stack: the calls they make and the state they
+   leave are the same for any two page sizes *)
+Theorem C25_version_decisions_page_independent : forall rules now pg1 pg2 vs,
+  NoDup (map (fun v => (v_key (sv_ver v), v_id (sv_ver v))) vs) ->
+  let run cap :=
+    let rs := map sr_rule rules in
+    let '(a2, v1) := exec_vdels vs (dm_decisions rs (collect_versions cap vs)) in
+    let '(a3, v2) := exec_vdels v1 (nce_decisions rs now (collect_versions cap v1)) in
+    let '(a4, v3) := exec_vtranss v2 (nct_decisions rules now (collect_versions cap v2)) in
+    (a2 ++ a3 ++ a4, v3) in
+  run (eff_cap pg1) = run (eff_cap pg2).
+Proof. intros rules now pg1 pg2 vs H. exact (version_sweeps_page_independent rules now pg1 pg2 vs H). Qed.
+Print Assumptions C25_version_decisions_page_independent.
+
+(* the object sweeps (expiration, transition) page by ListObjects/StartAfter: calls and resulting state do
+   not depend on the page size either *)
+Theorem C25_object_sweeps_page_independent : forall rules now pg1 pg2 st,
+  sorted_by skey st ->
+  obj_sweep (expire_one rules now) (S (length st)) (eff_cap pg1) None st =
+  obj_sweep (expire_one rules now) (S (length st)) (eff_cap pg2) None st /\
+  obj_sweep (transition_one rules now) (S (length st)) (eff_cap pg1) None st =
+  obj_sweep (transition_one rules now) (S (length st)) (eff_cap pg2) None st.
+Proof.
+  intros. split; [apply expire_sweep_page_independent | apply transition_sweep_page_independent]; assumption.
+Qed.
+Print Assumptions C25_object_sweeps_page_independent.
+
+(* (2) guarded actions.  Every DeleteObject of the paged expiration sweep: decided on a LISTED object that an
+   enabled matching rule makes due; guarded by the listed ETag; it succeeds only if what the key holds at
+   that moment (after whatever another client did) carries that ETag — a key deleted by the client or
+   overwritten with other bytes is never touched *)
+Theorem C25_sweep_expire_guarded : forall rules now fuel cap start st k e ok,
+  In (EDelete k e ok) (fst (obj_sweep (expire_one rules now) fuel cap start st)) ->
+  exists o st', k = skey o /\ e = o_etag (so_obj o) /\
+    (exists r ex, In r rules /\ r_enabled r = true /\ r_exp r = Some ex /\
+       rule_matches r (o_key (so_obj o)) (o_size (so_obj o)) (o_tags (so_obj o)) = true /\
+       C25_s3_due now (o_lm (so_obj o)) (e_days ex) (e_date ex)) /\
+    (ok = true -> exists held cur, find_obj (skey o) st' = Some held /\ client_apply held = Some cur /\
+                                   o_etag (so_obj cur) = o_etag (so_obj o)).
+Proof. exact sweep_expire_sound. Qed.
+Print Assumptions C25_sweep_expire_guarded.
+
+Theorem C25_sweep_transition_guarded : forall rules now fuel cap start st k c e ok,
+  In (ETransition k c e ok) (fst (obj_sweep (transition_one rules now) fuel cap start st)) ->
+  exists o st', k = skey o /\ e = o_etag (so_obj o) /\
+    (exists r t, In r rules /\ r_enabled r = true /\ In t (r_trans r) /\ t_class t = c /\
+       rule_matches r (o_key (so_obj o)) (o_size (so_obj o)) (o_tags (so_obj o)) = true /\
+       C25_s3_due now (o_lm (so_obj o)) (t_days t) (t_date t) /\ c <> eff_class (o_class (so_obj o))) /\
+    (ok = true -> exists held cur, find_obj (skey o) st' = Some held /\ client_apply held = Some cur /\
+                                   o_etag (so_obj cur) = o_etag (so_obj o)).
+Proof. exact sweep_transition_sound. Qed.
+Print Assumptions C25_sweep_transition_guarded.
+
+(* when the client's PUT changes the ETag, a successful guarded call met the untouched listed generation *)
+Theorem C25_guard_meets_listed_generation : forall held cur g,
+  (forall e lm, so_client held = Some (CPut e lm) -> e <> g) ->
+  o_etag (so_obj held) = g -> client_apply held = Some cur -> o_etag (so_obj cur) = g ->
+  cur = held /\ so_client held = None.
+Proof. exact client_apply_untouched. Qed.
+Print Assumptions C25_guard_meets_listed_generation.
+
+(* version-id addressed deletes (delete-marker cleanup, noncurrent expiration): "never a generation that was
+   not listed" at full strength *)
+Definition C25_version_delete_full : Prop := forall st acts k i f,
+  In (EDeleteVersion k i f) (fst (exec_vdels st acts)) -> f = false.
+
+(* witness (finding C25-version-id-delete-unguarded): the noncurrent NULL version is listed as due; a client
+   overwrites it in place (the id "null" is reused); DeleteObject(versionId=null) carries no guard *)
+Definition C25_w_null : sver :=
+  {| sv_ver := {| v_key := B"k"; v_id := B"null"; v_latest := false; v_dm := false; v_lm := 1699900000;
+                  v_size := 1; v_tags := [] |};
+     sv_etag := B"e0"; sv_class := []; sv_swap := Some (B"e9", 1700499990) |}.
+Theorem C25_version_delete_refuted : ~ C25_version_delete_full.
+Proof.
+  intros H. specialize (H [C25_w_null] [ADeleteVersion B"k" B"null"] B"k" B"null" true).
+  assert (true = false) as E by (apply H; vm_compute; left; reflexivity). discriminate.
+Qed.
+Print Assumptions C25_version_delete_refuted.
+
+(* partial: when no id of the state is being reused, every delete removes the listed generation *)
+Theorem C25_version_delete_partial : forall st acts k i f,
+  (forall v, In v st -> sv_swap v = None) ->
+  In (EDeleteVersion k i f) (fst (exec_vdels st acts)) ->
+  f = false /\ In (ADeleteVersion k i) acts.
+Proof.
+  intros st acts k i f Hs H. destruct (exec_vdels_from acts st k i f H) as [Ha (v & Hv & _ & Hf)].
+  split; [|exact Ha]. rewrite Hf, (Hs v Hv). reflexivity.
+Qed.
+Print Assumptions C25_version_delete_partial.
+
+(* noncurrent transitions: decided like noncurrent expiration (successor's Last-Modified, more than N newer
+   noncurrent versions ahead when the transition retains N, target differs from the current class, enabled
+   matching rule, due under S3 rounding) ... *)
+Theorem C25_noncurrent_transition_never_early_and_keeps_newer : forall rules now vs v c,
+  In (v, c) (nct_loop rules now None 0 vs) ->
+  exists before after since,
+    vs = before ++ v :: after /\ v_latest (sv_ver v) = false /\ v_dm (sv_ver v) = false /\
+    last_since_s None before = Some since /\
+    exists cnt,
+      (exists r t d, In r rules /\ r_enabled (sr_rule r) = true /\ In t (sr_nct r) /\ nt_class t = c /\
+         nt_days t = Some d /\ s3_days_due since d <= now /\
+         rule_matches (sr_rule r) (v_key (sv_ver v)) (v_size (sv_ver v)) (v_tags (sv_ver v)) = true /\
+         (forall N, nt_newer t = Some N -> N < cnt) /\ c <> eff_class (sv_class v)) /\
+      cnt <= 0 + Z.of_nat (length (filter noncurrent_s before)).
+Proof. intros rules now vs v c. exact (nct_loop_sound rules now vs None 0 v c). Qed.
+Print Assumptions C25_noncurrent_transition_never_early_and_keeps_newer.
+
+(* ... and executed under VersionID + IfMatchETag = listed ETag: it succeeds iff the generation carrying the
+   id at that moment has the listed ETag *)
+Theorem C25_noncurrent_transition_guarded : forall ds st k i c e ok,
+  In (ETransitionVersion k i c e ok) (fst (exec_vtranss st ds)) ->
+  exists listed st' held, In (listed, c) ds /\ k = v_key (sv_ver listed) /\ i = v_id (sv_ver listed) /\
+    e = sv_etag listed /\ find_ver k i st' = Some held /\
+    ok = bytes_eqb (sv_etag (swap_ver held)) (sv_etag listed).
+Proof. exact exec_vtranss_In. Qed.
+Print Assumptions C25_noncurrent_transition_guarded.
+
+Theorem C25_version_guard_meets_listed_generation : forall held g,
+  (forall e lm, sv_swap held = Some (e, lm) -> e <> g) ->
+  sv_etag (swap_ver held) = g -> swap_ver held = held /\ sv_swap held = None.
+Proof. exact swap_ver_untouched. Qed.
+Print Assumptions C25_version_guard_meets_listed_generation.
+
+(* examples: a current delete marker over a data version is kept whatever the page size (1 = the marker and the
+   data version arrive in different pages), and the whole sweep of the null-version witness *)
+Definition C25_ex_rule_dm : srule :=
+  {| sr_rule := {| r_enabled := true; r_prefix := Some []; r_filter := None;
+                   r_exp := Some {| e_days := None; e_date := None; e_dm := Some true |};
+                   r_trans := []; r_nce := Some {| n_days := Some 1; n_newer := None |}; r_abort := None |};
+     sr_nct := [] |}.
+Definition C25_ex_ver (k i : bytes) (latest dm : bool) (lm : Z) : sver :=
+  {| sv_ver := {| v_key := k; v_id := i; v_latest := latest; v_dm := dm; v_lm := lm; v_size := 1; v_tags := [] |};
+     sv_etag := B"e"; sv_class := []; sv_swap := None |}.
+Example C25_ex_paging :
+  let vs := [C25_ex_ver B"a" B"v1" true true 1700400000; C25_ex_ver B"a" B"v0" false false 1700000000;
+             C25_ex_ver B"b" B"v1" true true 1700400000] in
+  reconcile_s [C25_ex_rule_dm] 1700500000 1 [] vs [] = [EDeleteVersion B"b" B"v1" false] /\
+  reconcile_s [C25_ex_rule_dm] 1700500000 0 [] vs [] = reconcile_s [C25_ex_rule_dm] 1700500000 1 [] vs [].
+Proof. vm_compute. split; reflexivity. Qed.
+Example C25_ex_null_version_sweep :
+  reconcile_s [C25_ex_rule_dm] 1700500000 0 []
+    [C25_ex_ver B"k" B"v1" true false 1700000000; C25_w_null] []
+  = [EDeleteVersion B"k" B"null" true].
 Proof. vm_compute. reflexivity. Qed.
